@@ -216,12 +216,18 @@ func (fx *FuncCtx) memberGoal(st *State, fams []famInst, rid, addr Term, extra [
 	// a small goal first: witnesses from the access itself, the loop counters, the contract's
 	// hints and the polynomial decomposition; if that is provable quickly it is the obligation
 	// (small queries are the stable ones), otherwise the full witness search
+	// a region allocated during this call (negative id; a merged "nil ? fresh : given" slice is
+	// not syntactically an allocation) is not part of the caller-visible frame
+	fresh := tFalse
+	if !isAllocTerm(rid) && strings.Contains(rid.S, "alloc") {
+		fresh = Lt(rid, IntLit(0))
+	}
 	if fx.discard == 0 {
-		if g := fx.memberGoalLevel(st, fams, rid, addr, extra, true); g.S == "true" || (g.S != "false" && fx.proves(st.hypTerms(), g, fx.eng.quickTimeoutMs)) {
+		if g := Or(fresh, fx.memberGoalLevel(st, fams, rid, addr, extra, true)); g.S == "true" || (g.S != "false" && fx.proves(st.hypTerms(), g, fx.eng.quickTimeoutMs)) {
 			return g
 		}
 	}
-	return fx.memberGoalLevel(st, fams, rid, addr, extra, false)
+	return Or(fresh, fx.memberGoalLevel(st, fams, rid, addr, extra, false))
 }
 
 func (fx *FuncCtx) primaryCands(st *State, extra []Term) []Term {
